@@ -285,6 +285,8 @@ func runC13(c *Check) {
 	c.ruleRequestOnlyIfUnknownEverywhere("R11")
 	c.ruleTruncationKeepsForkPoint("R13")
 	c.rulePopMovesLastSavedHash("R14")
+	c.ruleLastHashGuards("R15")
+	c.ruleSavedHashMovesOnlyWithPop("R16")
 	c.ruleFilledRequestsGoOut("R12", "handlers.(*HeadersHandler).Handle", "spynode.(*Node).processBlocks")
 	c.ruleRemovedRangeIsCountedRange("R2", a.blocksRequested, a.pendingBlockSize)
 
